@@ -149,8 +149,8 @@ pub fn random_match_on(rng: &mut Rng) -> Option<Value> {
             let mut m = vec![];
             // sources that are prefixes of one another with the separator a key encoding might use; ids that
             // agree modulo 2^32 or are extreme: neighbouring keys of any (source, id) cache
-            for s in ["s", "t", "s-"] {
-                if rng.chance(if s == "s-" { 1 } else { 2 }, 3) {
+            for s in ["s", "t", "s-", "S"] {
+                if rng.chance(if s == "s-" || s == "S" { 1 } else { 2 }, 3) {
                     let k = rng.below(3);
                     let ids: Vec<i64> = (0..k).map(|_| *rng.pick(&[1i64, 2, -1, -2, 0, 1, 2, -1, 4294967297, -4294967297, i64::MAX, i64::MIN])).collect();
                     m.push(json!([s, ids]));
@@ -258,7 +258,7 @@ pub fn random_ruleset(rng: &mut Rng, cfg: &Cfg) -> Vec<SRule> {
 pub fn random_value(rng: &mut Rng) -> FieldValue {
     if rng.chance(1, 6) {
         return match rng.below(4) {
-            0 => FieldValue::String(rng.pick(&["none", "true", "false", "some", "00", "0x0", "-0", "42.0", "0x2a", "42", "\u{65e5}\u{672c}\u{8a9e}", "\u{20ac}100", "1\u{e9}", "D\u{e9}sir\u{e9}e", "9007199254740993", "inf", "NaN"]).to_string()),
+            0 => FieldValue::String(rng.pick(&["none", "true", "false", "some", "00", "0x0", "-0", "42.0", "0x2a", "42", "\u{65e5}\u{672c}\u{8a9e}", "\u{20ac}100", "1\u{e9}", "D\u{e9}sir\u{e9}e", "9007199254740993", "inf", "NaN", "-", "+", "-x", "0x", "."]).to_string()),
             1 => FieldValue::Number(Number::Int(*rng.pick(&[i64::MIN, i64::MAX, -9007199254740993, 9007199254740993, 42, 0]))),
             2 => FieldValue::Number(Number::Uint(*rng.pick(&[u64::MAX, 1u64 << 63, 9007199254740993, 9007199254740992, 42, 0]))),
             _ => FieldValue::Number(Number::Float(*rng.pick(&[9007199254740992.0, 9223372036854775808.0, 18446744073709551616.0, f64::INFINITY, f64::NEG_INFINITY, -0.0, 1e19, -1e19, 42.0, -9223372036854775808.0]))),
@@ -286,7 +286,7 @@ pub fn random_event(rng: &mut Rng, missing: (u64, u64)) -> DynEvent {
         }
     }
     DynEvent {
-        source: rng.pick(&["s", "s", "s", "t", "u", "s-"]).to_string(),
+        source: rng.pick(&["s", "s", "s", "t", "u", "s-", "S", "T"]).to_string(),
         id: *rng.pick(&[1i64, 1, 1, 2, 2, 0, -1, -1, 4294967297, 4294967298, -4294967295, i64::MAX, i64::MIN]),
         fields,
     }
@@ -306,5 +306,77 @@ pub fn gen_random(rng: &mut Rng, cfg: &Cfg, n: usize, tag: &str, missing: (u64, 
         let rules = random_ruleset(rng, cfg);
         let events: Vec<DynEvent> = (0..cfg.n_events).map(|_| random_event(rng, missing)).collect();
         out(scenario_json(&rules, &events, rng, tag));
+    }
+}
+
+/// rule sets scanned against events served by derived getters (`crate::derived`)
+pub fn gen_derived(rng: &mut Rng, n: usize, tag: &str, out: &mut dyn FnMut(Value)) {
+    let paths = crate::derived::paths();
+    for _ in 0..n {
+        let n_rules = 1 + rng.below(3);
+        let mut rules: Vec<SRule> = vec![];
+        for ri in 0..n_rules {
+            let n_ops = 1 + rng.below(3);
+            let mut ops: Vec<(String, Operand)> = vec![];
+            for oi in 0..n_ops {
+                let segs = rng.pick(&paths).clone();
+                if segs.is_empty() {
+                    continue;
+                }
+                let (op, lit) = match rng.below(9) {
+                    0 => (rng.below(2), Lit::None),
+                    1 => (rng.below(2), Lit::Some),
+                    2 => (0, Lit::sq(*rng.pick(&["1", "/root", "root", "a", "secret", "/bin/sh", "/tmp/caf\u{fffd}/x", "42", "0.1", "4242", "-"]))),
+                    3 => (2 + rng.below(4), Lit::sq(*rng.pick(&["0", "1", "0.1", "0.10000000149011612", "16777217", "-1", "18446744073709551615", "9223372036854775807"]))),
+                    4 => (6, Lit::sq(*rng.pick(&["^/", "root", ".", "caf"]))),
+                    5 => (7, Lit::sq(*rng.pick(&["1", "0x8000000000000000", "0"]))),
+                    6 => (0, Lit::Bool(rng.chance(1, 2))),
+                    7 => (0, Lit::sq("18446744073709551615")),
+                    _ => (0, Lit::sq("-9223372036854775808")),
+                };
+                ops.push((format!("$o{oi}"), Operand::Test { segs, op, lit }));
+            }
+            if ops.is_empty() {
+                continue;
+            }
+            let vars: Vec<String> = ops.iter().map(|o| o.0.clone()).collect();
+            let cond = random_form_over(rng, &vars, 2, (1, 4), (0, 1));
+            rules.push(SRule { name: format!("r{ri}"), ops, cond: Some(cond), severity: Some(rng.below(6) as u64), ..Default::default() });
+        }
+        if rules.is_empty() {
+            continue;
+        }
+        let events: Vec<Value> = (0..6).map(|_| crate::derived::event_json(rng)).collect();
+        // regex / number tables: every literal, every string that occurs in the events
+        let mut pats = vec![];
+        let mut nums = vec![];
+        for r in &rules {
+            for (_, o) in &r.ops {
+                if let Operand::Test { op, lit, .. } = o {
+                    if crate::dsl::OPS[*op].1 == "rex" {
+                        pats.push(lit.text());
+                    }
+                    nums.push(lit.text());
+                }
+            }
+        }
+        let mut hays = vec![];
+        fn strings(v: &Value, out: &mut Vec<String>) {
+            match v {
+                Value::String(s) => out.push(s.clone()),
+                Value::Array(a) => a.iter().for_each(|x| strings(x, out)),
+                Value::Object(o) => o.values().for_each(|x| strings(x, out)),
+                _ => {}
+            }
+        }
+        for e in &events {
+            strings(&e["gval"], &mut hays);
+        }
+        nums.extend(hays.iter().cloned());
+        out(json!({
+            "op": "scenario", "ext": crate::dsl::ext_tables(&pats, &hays, &nums),
+            "rules": rules.iter().map(|r| r.to_json(rng)).collect::<Vec<_>>(),
+            "events": events, "tag": tag, "nt": true,
+        }));
     }
 }
